@@ -17,7 +17,7 @@ META = {
     "note": "Side conditions of well-formed templates are explicit in the generator (names free of delimiters, loop value names not a prefix of any other name, attribute texts free of their quote, integers only: real formatting is C10, sort/group are C15/C18).",
 }
 
-THEOREMS = ["Qentem.Props.C02.render_parse_print_text", "Qentem.Props.C02.parse_segs", "Qentem.Props.C02.render_parse_print_segs", "Qentem.Props.C02.getValue_eq_resolve", "Qentem.Props.C02.scan_eval_relocatable", "Qentem.Props.C02.render_parse_print_blocks", "Qentem.Props.C02.expandList_text", "Qentem.Props.C01.render_text", "Qentem.Props.C01.parse_text", "Qentem.Props.C01.finder_safe_total",
+THEOREMS = ["Qentem.Props.C02.render_parse_print_text", "Qentem.Props.C02.parse_segs", "Qentem.Props.C02.render_parse_print_segs", "Qentem.Props.C02.getValue_eq_resolve", "Qentem.Props.C02.scan_eval_relocatable", "Qentem.Props.C02.render_parse_print_blocks", "Qentem.Props.C02.render_parse_print_tree", "Qentem.Props.C02.expandList_text", "Qentem.Props.C01.render_text", "Qentem.Props.C01.parse_text", "Qentem.Props.C01.finder_safe_total",
             "Qentem.Props.C01.render_safe_of_wf", "Qentem.Props.C04.evaluate_eq_tree",
             "Qentem.Props.C03.escape_no_raw_special"]
 OPEN = ["Qentem.Props.C02.RenderParsePrint: WellFormed t -> render (parse (printTpl t)) v = expand t v (statement only; decided per run by this check)"]
